@@ -1,6 +1,7 @@
 import Resolvo.MDet.Checked
 import Resolvo.Abs.Fail
 import Resolvo.Abs.Preferred
+import Resolvo.Abs.BestDirect
 import Resolvo.Props.C05
 namespace Resolvo.MDet
 open Resolvo Resolvo.Abs
@@ -116,5 +117,17 @@ theorem solveChecked_preferred (U : Universe) (P : Problem) (fuel : Nat) (s : S)
   have he : exemptOf P sol = [] := by simp [exemptOf, hsoft]
   rw [he] at hv
   exact preferred_exact U P hsoft pref hpc _ st hrun sol hsol ((validB_iff U P sol []).mp hv)
+
+/-- **C08 for the checked model**: if all root requirements are single version sets and some valid selection contains
+    the first-ranked candidate of each, the checked model's solution contains all of them. -/
+theorem solveChecked_best_direct (U : Universe) (P : Problem) (fuel : Nat) (s : S) (sol sstar : List Nat)
+    (hsoft : P.soft = []) (hb : BestHyp U P sstar)
+    (h : (solveChecked U P fuel s).1 = .ok sol) : ∀ r ∈ P.reqs, ∀ c, firstChoice U r = some c → c ∈ sol := by
+  unfold solveChecked at h
+  simp only [] at h
+  obtain ⟨_, hv, _, st, hrun, hsol⟩ := checkOutcome_ok U P _ _ sol h
+  have he : exemptOf P sol = [] := by simp [exemptOf, hsoft]
+  rw [he] at hv
+  exact best_direct U P hsoft sstar hb _ st hrun sol hsol ((validB_iff U P sol []).mp hv)
 
 end Resolvo.MDet
